@@ -972,6 +972,49 @@ def check_groupj(ctx, case, mode_b=True):
                 ctx.brk("correspondence", f"library group {case['name']}: mode B {b['stage']}: {b['what']}", stage=b["stage"], case=case, spec=spec)
 
 
+def spec_dropout_junction(D, dt, nsteps, inflow, move, drop, start=2000.0):
+    """t00, t01 members of the duration group du0; junction g0: t00 --ra1--> g0 --pr0--> c1 (an ordinary compartment OUTSIDE the group), g0 --'>'--> t01.
+    The junction's only outflow into the group is the residual link: it still belongs to the group (people passing through it from t00 to t01 keep their elapsed time)."""
+    tv = times(start, dt, nsteps)
+    comps = [C("c0", 50.0), C("c1", 0.0), C("t00", 0.0), C("t01", 0.0), C("k0", kind="sink"), C("src", kind="source"), C("g0", kind="junction")]
+    pars = [P("du0", "duration", D, timed=True), P("nu0", "number", series(tv, inflow)), P("ra1", "rate", move), P("ra9", "rate", 0.1), P("pr0", "proportion", drop)]
+    trans = [["t00", "k0", "du0"], ["t01", "k0", "du0"], ["src", "t00", "nu0"], ["c0", "k0", "ra9"], ["t00", "g0", "ra1"], ["g0", "c1", "pr0"], ["g0", "t01", ">"]]
+    return {"comps": comps, "characs": [], "pars": pars, "transitions": trans, "pops": ["pa"], "transfers": [], "settings": [start, start + nsteps * dt, dt], "regime": "c05"}
+
+
+def run_dropout_junction(ctx, n):
+    """nobody stays in a duration group longer than n steps, also when the move inside the group goes through a junction whose other outflow leaves the group:
+    a pulse entering at step s has left the group (through the timed outflow or the drop-out link) by step s+n."""
+    r = ctx.rng
+    for i in range(n):
+        rr = _random.Random(r.randrange(1 << 30))
+        dt = rr.choice([1.0, 0.5, 0.25])
+        k = rr.choice([2, 3, 4])
+        D = k * dt
+        nsteps = 2 * k + 6
+        s_ = rr.randint(0, 2)
+        infl = [rr.choice([0.0, 10.0, 40.0]) for _ in range(nsteps + 1)]
+        infl1 = list(infl)
+        infl1[s_] += 100.0 / dt
+        case = {"D": D, "dt": dt, "nsteps": nsteps, "move": rr.choice([0.4 / dt, 0.8 / dt]), "drop": rr.choice([0.2, 0.5]), "s": s_}
+        try:
+            m0 = genfw.run(spec_dropout_junction(D, dt, nsteps, infl, case["move"], case["drop"]))
+            m1 = genfw.run(spec_dropout_junction(D, dt, nsteps, infl1, case["move"], case["drop"]))
+        except Exception as e:
+            ctx.brk("correspondence", f"drop-out junction model could not be run: {type(e).__name__}: {str(e)[:160]}", case=case)
+            continue
+        ctx.count("groups.dropout_junction")
+        occ = lambda m: sum(np.asarray(m.pops[0].get_comp(c).vals, dtype=float) for c in ("t00", "t01"))
+        extra = occ(m1) - occ(m0)
+        nrows = m0.pops[0].get_comp("t00")._vals.shape[0]
+        ctx.case({"oracle": "dropout-junction", **case}, nontrivial=True, sample=case)
+        late = [int(t) for t in range(len(extra)) if t > s_ + nrows and abs(extra[t]) > 1e-7]
+        if late:
+            ctx.violation({"api": "ProjectFramework", "case": "junction-tied-to-its-group-by-the-residual-link-only"},
+                          f"duration group of n={nrows} steps (D={D}, dt={dt}): a pulse of 100 entering t00 at step {s_} and moving t00 -> g0 -> t01 (g0's other outflow leaves the group) is still in the group at steps {late[:4]} "
+                          f"({extra[late[0]]:.4g} people at step {late[0]}): moving through the junction restarted the elapsed time", {"kind": "dropout_junction", "case": case, "inflow": infl})
+
+
 def run_groupsj(ctx, n):
     r = ctx.rng
     for i in range(n):
@@ -1213,6 +1256,7 @@ def _work(ctx, counts):
     install_oracles(ctx)  # this (sub-)context's counters receive the group-shift statistics of every model of the streams
     run_keyring(ctx, counts["keyring"])
     run_groups(ctx, counts["groups"])
+    run_dropout_junction(ctx, max(3, counts["groups"] // 3))
     run_groupsj(ctx, counts["groupsj"])
     run_release(ctx, counts["release"])
     run_gshift(ctx, counts["gshift"])
